@@ -59,7 +59,7 @@ class C08(Prop):
     tie_modules = {
         # from_stream(_result) / from_future(_result): what is scheduled, the driver polls = streamSpec / tryStreamSpec
         "RxModel.GenTie.AsyncSources": [],
-"RxModel.GenTie.Scheduler": [],
+"RxModel.GenTie.Scheduler": [], "RxModel.GenTie.PinsSched": [],
                    # interval / interval_at / timer / timer_at: what `actual_subscribe` schedules, the tick and task functions
                    "RxModel.GenTie.TimeSources": [],
                    # … and those scheduling events ARE the scheduling calls of the world model (TW.subscribeSource, runTick)
